@@ -31,11 +31,12 @@ def configs():
 
 def grads(vals, which):
     """closed-form gradients of the two losses at the current parameter values
-    L1 = sum(a*w1*w1) + sum(b*w2) + sum(w3*w1);  L2 = 0.5*sum(w2*w2) + sum(d*w1) + sum(w4*w4)"""
+    L1 = sum(b*w2) + 0.5*sum(w2*w2) + sum(w3*d);      (does NOT involve w1: until the first backward(L2) the FIRST parameter
+    L2 = sum(a*w1*w1) + sum(d*w1) + 0.5*sum(w2*w2) + sum(w4*w4)    of the optimizer has no gradient and must be skipped)"""
     w1, w2, w3, w4 = (np.asarray(vals[k], dtype=np.float64) for k in ("w1", "w2", "w3", "w4"))
     if which == "B":
-        return {"w1": 2 * A1 * w1 + w3, "w2": B2.copy(), "w3": w1.copy(), "w4": None}
-    return {"w1": D1.copy(), "w2": w2.copy(), "w3": None, "w4": 2 * w4}
+        return {"w1": None, "w2": B2 + w2, "w3": D1.copy(), "w4": None}
+    return {"w1": 2 * A1 * w1 + D1, "w2": w2.copy(), "w3": None, "w4": 2 * w4}
 
 class RefOpt:
     """update rules as printed in the PyTorch docs (SGD / Adam / AdamW algorithm boxes), per-parameter state"""
@@ -80,8 +81,8 @@ def make_torch(cfg):
 def lib_loss(sg, P, which):
     T = sg.Tensor
     if which == "B":
-        return (P["w1"] * P["w1"] * T(A1.copy())).sum() + (P["w2"] * T(B2.astype(np.float32))).sum() + (P["w3"] * P["w1"]).sum()
-    return (P["w2"] * P["w2"]).sum() * 0.5 + (P["w1"] * T(D1.copy())).sum() + (P["w4"] * P["w4"]).sum()
+        return (P["w2"] * T(B2.astype(np.float32))).sum() + (P["w2"] * P["w2"]).sum() * 0.5 + (P["w3"] * T(D1.copy())).sum()
+    return (P["w1"] * P["w1"] * T(A1.copy())).sum() + (P["w1"] * T(D1.copy())).sum() + (P["w2"] * P["w2"]).sum() * 0.5 + (P["w4"] * P["w4"]).sum()
 
 def tol(name):
     return (3e-6, 3e-6) if DT[name] == np.float32 else (1e-10, 1e-12)
